@@ -596,8 +596,30 @@ def sib7b(ctx, pid):
     msb_first = ctx.P.const(cm, "EXP") == (128, 64, 32, 16, 8, 4, 2, 1) or exp_src in ("tuple(reversed(tuple((2**iforiinrange(8)))))", "tuple(reversed(tuple(2**iforiinrange(8))))",
                             "(128,64,32,16,8,4,2,1)", "tuple(2**iforiinrange(7,-1,-1))")
     f = ctx.P.func(B + "encode_to_bin")
-    src = util.alpha_src(f)
-    writer_ok = "forv0in%s:" % f.params[0] in src and "forv1inEXP:" in src and ("ifv0&v1:" in src or "ifv1&v0:" in src) and "yieldTrue" in src and "yieldFalse" in src
+    # writer: for <byte> in value: for <weight> in EXP: yield True exactly when byte & weight
+    writer_ok = False
+    writer_wrong = None
+    outer = [n for n in walk_shallow(f.node) if isinstance(n, ast.For) and isinstance(n.iter, ast.Name) and n.iter.id == f.params[0] and isinstance(n.target, ast.Name)]
+    inner = [n for o in outer for n in ast.walk(o) if isinstance(n, ast.For) and n is not o and isinstance(n.iter, ast.Name) and n.iter.id == "EXP" and isinstance(n.target, ast.Name)]
+    if len(outer) == 1 and len(inner) == 1:
+        bv, wv = outer[0].target.id, inner[0].target.id
+        seen_y = {True: 0, False: 0}
+        shape = True
+        for p in ctx.X.paths(f):
+            pol = None
+            for ev in p.events:
+                if ev.k == "assume" and ast.unparse(ev.node).replace(" ", "") in ("%s&%s" % (bv, wv), "%s&%s" % (wv, bv)):
+                    pol = ev.a
+                elif ev.k == "yield":
+                    val = ev.node.value if isinstance(ev.node, (ast.Yield,)) else None
+                    if pol is None or not (isinstance(val, ast.Constant) and isinstance(val.value, bool)):
+                        shape = False
+                    else:
+                        seen_y[val.value] += 1
+                        if val.value is not pol:
+                            writer_wrong = "yields %s when `%s & %s` is %s" % (val.value, bv, wv, pol)
+                    pol = None
+        writer_ok = shape and seen_y[True] > 0 and seen_y[False] > 0 and writer_wrong is None
     g = ctx.P.func(B + "decode_from_bin")
     gsrc = util.alpha_src(g)
     reader_ok = "partition_all(8,%s)" % g.params[0] in gsrc and "sum((2**v1*v2for(v1,v2)inenumerate(reversed(v0))))" in gsrc.replace("forv1,v2in", "for(v1,v2)in")
@@ -606,6 +628,8 @@ def sib7b(ctx, pid):
         ctx.ok(c, f.loc(), "writer emits bits for weights 128..1 in that order; reader weights the reversed 8-chunk by 2**index: both MSB first")
     elif not msb_first:
         ctx.bad(c, "trie/constants.py", "EXP is `%s`: the weights are not 128, 64, .., 1 (MSB first) as the reader assumes" % ast.unparse(exp_node)[:60] if exp_node is not None else "EXP missing")
+    elif writer_wrong:
+        ctx.bad(c, f.loc(), "encode_to_bin %s: set bits must be written as 1" % writer_wrong)
     elif not writer_ok:
         ctx.unsure(c, f.loc(), "encode_to_bin has a shape the rule does not recognise")
     else:
